@@ -155,6 +155,11 @@ the driver is time-based — a preamble task ends only when its preamble is comp
 stream fails, however late the peer's bytes come. -/
 theorem source_driver_has_no_timers : Generated.DRIVER_TIMER_FREE = true := by decide
 
+/-- … and nothing in the driver limits the peer's streams across kinds: the unidirectional and the
+bidirectional pipeline are two independent instances of the model (own backlog, own tasks, own
+queue), so what waits in one never keeps the other from delivering. -/
+theorem source_kinds_share_no_limiter : Generated.DRIVER_SEMAPHORE_FREE = true := by decide
+
 theorem step_timers (s : St) (a : Act) : (step s a).timers = s.timers := by
   cases a <;> simp only [step] <;> (repeat' split) <;> rfl
 
